@@ -361,6 +361,96 @@ async fn run_mcancel(seed: u64) -> (Vec<String>, Vec<(String, String)>) {
     (trace, viol)
 }
 
+/// C07: ONE stream is told to end through the channel's `gracefully_end_stream()` (bounded) while all the other stream ids are taken; its consumer
+/// sees end-of-stream, drops the stream and re-subscribes (at once, or a little later): the replacement gets the very id that was just
+/// released.  The replacement was never told to end: it must stay alive and receive what is sent afterwards; so must the other listener; the
+/// ended stream must have yielded what was buffered for it.
+async fn run_endreuse(seed: u64) -> (Vec<String>, Vec<(String, String)>) {
+    use reactive_mutiny::types::{ChannelCommon, ChannelMulti, ChannelUni, ChannelProducer};
+    use reactive_mutiny::multi::channels::arc::atomic::Atomic as MultiArcAtomic;
+    use reactive_mutiny::uni::channels::movable::atomic::Atomic as UniMovableAtomic;
+    let mut rng = Rng::new(seed ^ 0xE7D);
+    let uni = rng.chance(1, 2);
+    let n_buffered = rng.range(0, 2) as u32;
+    let resub_delay = [0u64, 0, 1, 7][rng.below(4) as usize];
+    let end_timeout = Duration::from_millis([20u64, 60][rng.below(2) as usize]);
+    let patience = Duration::from_millis(3000);
+    let log = Arc::new(Mutex::new(Vec::<String>::new()));
+    let mut viol = vec![];
+    macro_rules! lg { ($($a:tt)*) => { log.lock().unwrap().push(format!($($a)*)) } }
+    lg!("cfg kind={} buffered={n_buffered} resub_delay={resub_delay}ms end_timeout={}ms", if uni { "uni_matomic" } else { "multi_arc_atomic" }, end_timeout.as_millis());
+    let (tx, rx) = tokio::sync::oneshot::channel::<u32>();
+    if uni {
+        let channel = UniMovableAtomic::<'static, u32, 16, 1>::new("vh-endreuse");
+        let (mut stream, stream_id) = channel.create_stream();
+        for i in 0..n_buffered { let _ = channel.send(100 + i); }
+        let (c2, l2) = (Arc::clone(&channel), log.clone());
+        let consumer = tokio::spawn(async move {
+            let mut old = vec![];
+            while let Some(e) = stream.next().await { old.push(e); }
+            drop(stream);
+            if resub_delay > 0 { tokio::time::sleep(Duration::from_millis(resub_delay)).await; }
+            let (mut repl, repl_id) = c2.create_stream();
+            l2.lock().unwrap().push(format!("resubscribed id={repl_id}"));
+            let _ = tx.send(repl_id);
+            let mut got = vec![]; let mut ended = false;
+            for _ in 0..2 { match tokio::time::timeout(patience, repl.next()).await { Ok(Some(e)) => got.push(e), Ok(None) => { ended = true; break }, Err(_) => break } }
+            (old, got, ended)
+        });
+        tokio::time::sleep(Duration::from_millis(5)).await;
+        let c3 = Arc::clone(&channel);
+        let ender = tokio::spawn(async move { c3.gracefully_end_stream(stream_id, end_timeout).await });
+        let repl_id = tokio::time::timeout(patience, rx).await.ok().and_then(|r| r.ok());
+        let _ = tokio::time::timeout(patience, ender).await;
+        lg!("end_stream over; replacement id {:?}", repl_id);
+        tokio::time::sleep(Duration::from_millis(5)).await;
+        let _ = channel.send(1); tokio::time::sleep(Duration::from_millis(3)).await; let _ = channel.send(2);
+        let (old, got, ended) = consumer.await.expect("consumer task");
+        lg!("ended stream yielded {:?}; replacement yielded {:?} ended={ended}", old, got);
+        if old != (0..n_buffered).map(|i| 100 + i).collect::<Vec<_>>() { viol.push(("buffered_event_dropped_at_end".into(), format!("the stream told to end yielded {:?} of the {n_buffered} events buffered for it", old))); }
+        if repl_id.is_none() { viol.push(("cancelled_stream_never_ended".into(), "the stream told to end by gracefully_end_stream() did not end".into())); }
+        else if ended || got != vec![1, 2] { viol.push(("uncancelled_stream_ended".into(), format!("the replacement stream (id {:?}, same id as the stream that was ended: {}) was never told to end, yet it yielded {:?} of [1, 2]{}", repl_id, repl_id == Some(stream_id), got, if ended { " and then answered end-of-stream" } else { "" }))); }
+    } else {
+        let channel = MultiArcAtomic::<'static, u32, 16, 2>::new("vh-endreuse");
+        let (mut first, _first_id) = channel.create_stream_for_new_events();
+        let (mut second, second_id) = channel.create_stream_for_new_events();
+        for i in 0..n_buffered { let _ = channel.send(100 + i); }
+        let (c2, l2) = (Arc::clone(&channel), log.clone());
+        let consumer = tokio::spawn(async move {
+            let mut old = vec![];
+            while let Some(e) = second.next().await { old.push(*e); }
+            drop(second);
+            if resub_delay > 0 { tokio::time::sleep(Duration::from_millis(resub_delay)).await; }
+            let (mut repl, repl_id) = c2.create_stream_for_new_events();
+            l2.lock().unwrap().push(format!("resubscribed id={repl_id}"));
+            let _ = tx.send(repl_id);
+            let mut got = vec![]; let mut ended = false;
+            for _ in 0..2 { match tokio::time::timeout(patience, repl.next()).await { Ok(Some(e)) => got.push(*e), Ok(None) => { ended = true; break }, Err(_) => break } }
+            (old, got, ended)
+        });
+        tokio::time::sleep(Duration::from_millis(5)).await;
+        let c3 = Arc::clone(&channel);
+        let ender = tokio::spawn(async move { c3.gracefully_end_stream(second_id, end_timeout).await });
+        let repl_id = tokio::time::timeout(patience, rx).await.ok().and_then(|r| r.ok());
+        let _ = tokio::time::timeout(patience, ender).await;
+        lg!("end_stream over; replacement id {:?}", repl_id);
+        tokio::time::sleep(Duration::from_millis(5)).await;
+        let _ = channel.send(1); tokio::time::sleep(Duration::from_millis(3)).await; let _ = channel.send(2);
+        let (old, got, ended) = consumer.await.expect("consumer task");
+        let mut f = vec![];
+        for _ in 0..(n_buffered + 2) { match tokio::time::timeout(patience, first.next()).await { Ok(Some(e)) => f.push(*e), _ => break } }
+        lg!("ended listener yielded {:?}; replacement yielded {:?} ended={ended}; first listener yielded {:?}", old, got, f);
+        let mut want: Vec<u32> = (0..n_buffered).map(|i| 100 + i).collect();
+        if old != want { viol.push(("buffered_event_dropped_at_end".into(), format!("the listener told to end yielded {:?} of the {n_buffered} events buffered for it", old))); }
+        want.extend([1, 2]);
+        if f != want { viol.push(("untargeted_stream_starved".into(), format!("the first listener (never told to end) yielded {:?} instead of {:?}", f, want))); }
+        if repl_id.is_none() { viol.push(("cancelled_stream_never_ended".into(), "the listener told to end by gracefully_end_stream() did not end".into())); }
+        else if ended || got != vec![1, 2] { viol.push(("uncancelled_stream_ended".into(), format!("the replacement listener (id {:?}, same id as the listener that was ended: {}) was never told to end, yet it yielded {:?} of [1, 2]{}", repl_id, repl_id == Some(second_id), got, if ended { " and then answered end-of-stream" } else { "" }))); }
+    }
+    let trace = log.lock().unwrap().clone();
+    (trace, viol)
+}
+
 fn runtime(multi: bool) -> tokio::runtime::Runtime {
     if multi { tokio::runtime::Builder::new_multi_thread().worker_threads(4).enable_all().build().unwrap() }
     else { tokio::runtime::Builder::new_current_thread().enable_all().start_paused(true).build().unwrap() }
@@ -377,6 +467,24 @@ fn main() {
     let mut out = TraceOut::new(&a.get("trace", ""));
     let mut rep = Report::new(&format!("exec/{sub}"));
     const VARIANTS: [&str; 4] = ["futfallible", "fut", "fallible", "plain"];
+    if sub == "endreuse" {
+        for i in 0..runs {
+            let seed = if a.kv.contains_key("seedx") { a.num("seedx", 0) } else { seed0.wrapping_mul(1_000_003).wrapping_add(i) };
+            mark_run(seed);
+            // real clock: `end_stream` measures its timeout with std's `Instant`, which a paused tokio clock does not move
+            let rt = if multi { runtime(true) } else { tokio::runtime::Builder::new_current_thread().enable_all().build().unwrap() };
+            let (trace, viol) = rt.block_on(run_endreuse(seed));
+            drop(rt);
+            rep.add_run(&trace, trace.iter().any(|l| l.starts_with("resubscribed")), &trace[0], "Completed");
+            for (k, d) in viol {
+                let header = vec![format!("cmd exec sub=endreuse runs=1 seedx={seed}"), format!("violation {k}: {d}")];
+                let p = write_replay(&replay_dir, &format!("{pid}-exec-endreuse-seed{seed}-{k}"), &header, &trace);
+                rep.violations.push(Violation { run: i, seed, kind: k, detail: d, replay: p });
+            }
+        }
+        rep.print();
+        return
+    }
     if sub == "mcancel" {
         for i in 0..runs {
             let seed = if a.kv.contains_key("seedx") { a.num("seedx", 0) } else { seed0.wrapping_mul(1_000_003).wrapping_add(i) };
